@@ -184,6 +184,13 @@ fn lanes4(a: &[&str]) -> Result<vh::Lanes4, Fail> {
     Ok([fe(a[0])?, fe(a[1])?, fe(a[2])?, fe(a[3])?])
 }
 
+/// Lanes given as raw `FieldElement51` limbs (`vfel.*`): INT LIST of 5 u64.
+#[cfg(hv_simd)]
+fn lanes4_limbs(a: &[&str]) -> Result<vh::Lanes4, Fail> {
+    let l = |s: &str| limbs::<u64, 5>(s);
+    Ok([l(a[0])?, l(a[1])?, l(a[2])?, l(a[3])?])
+}
+
 #[cfg(hv_simd)]
 fn ok_lanes(l: &vh::Lanes4) -> R {
     let mut o = String::new();
@@ -213,22 +220,22 @@ fn vfe_arity(op: &str) -> Option<usize> {
 
 #[allow(unused_macros)]
 macro_rules! vfe_impl {
-    ($modname:ident, $square:ident, $blend_max:expr) => {
+    ($modname:ident, $square:ident, $lanes4:ident) => {
         |op: &str, a: &[&str]| -> R {
             use vh::$modname as v;
             // None from a hook = CPU lacks the instruction set = skip
             let r: Option<vh::Lanes4> = match op {
-                "roundtrip" => v::new_split(&lanes4(a)?),
-                "mul" => v::mul(&lanes4(a)?, &lanes4(&a[4..])?),
-                "square" => v::$square(&lanes4(a)?),
-                "neg" => v::neg(&lanes4(a)?),
-                "negate_lazy" => v::negate_lazy(&lanes4(a)?),
-                "reduce" => v::reduce(&lanes4(a)?),
-                "add" => v::add(&lanes4(a)?, &lanes4(&a[4..])?),
-                "sub" => v::add_neg(&lanes4(a)?, &lanes4(&a[4..])?),
-                "diff_sum" => v::diff_sum(&lanes4(a)?),
+                "roundtrip" => v::new_split(&$lanes4(a)?),
+                "mul" => v::mul(&$lanes4(a)?, &$lanes4(&a[4..])?),
+                "square" => v::$square(&$lanes4(a)?),
+                "neg" => v::neg(&$lanes4(a)?),
+                "negate_lazy" => v::negate_lazy(&$lanes4(a)?),
+                "reduce" => v::reduce(&$lanes4(a)?),
+                "add" => v::add(&$lanes4(a)?, &$lanes4(&a[4..])?),
+                "sub" => v::add_neg(&$lanes4(a)?, &$lanes4(&a[4..])?),
+                "diff_sum" => v::diff_sum(&$lanes4(a)?),
                 "shuffle" => {
-                    let x = lanes4(a)?;
+                    let x = $lanes4(a)?;
                     let ctl = int_in(a[4], 0, 9)? as u8;
                     match v::shuffle(&x, ctl) {
                         None => None,
@@ -237,7 +244,7 @@ macro_rules! vfe_impl {
                     }
                 }
                 "blend" => {
-                    let (x, y) = (lanes4(a)?, lanes4(&a[4..])?);
+                    let (x, y) = ($lanes4(a)?, $lanes4(&a[4..])?);
                     let ctl = int_in(a[8], 0, 8)? as u8;
                     match v::blend(&x, &y, ctl) {
                         None => None,
@@ -247,11 +254,11 @@ macro_rules! vfe_impl {
                     }
                 }
                 "mul_consts" => {
-                    let x = lanes4(a)?;
+                    let x = $lanes4(a)?;
                     v::mul_consts(&x, consts4(&a[4..])?)
                 }
                 "cselect" => {
-                    let (x, y) = (lanes4(a)?, lanes4(&a[4..])?);
+                    let (x, y) = ($lanes4(a)?, $lanes4(&a[4..])?);
                     v::conditional_select(&x, &y, choice(a[8])?)
                 }
                 _ => return Err(BADREQ),
@@ -264,7 +271,9 @@ macro_rules! vfe_impl {
     };
 }
 
-pub fn vfe_op(isa: &str, op: &str, a: &[&str]) -> R {
+/// `vfe.A.*` (`raw == false`, lanes = 32-byte field elements) and
+/// `vfel.A.*` (`raw == true`, lanes = 5 raw u64 limbs, possibly unreduced).
+pub fn vfe_op(raw: bool, isa: &str, op: &str, a: &[&str]) -> R {
     if isa != "avx2" && isa != "ifma" {
         return Err(BADREQ);
     }
@@ -273,13 +282,21 @@ pub fn vfe_op(isa: &str, op: &str, a: &[&str]) -> R {
         "avx2" => {
             #[cfg(hv_simd)]
             {
-                return (vfe_impl!(avx2, square_and_negate_d, 7))(op, a);
+                return if raw {
+                    (vfe_impl!(avx2, square_and_negate_d, lanes4_limbs))(op, a)
+                } else {
+                    (vfe_impl!(avx2, square_and_negate_d, lanes4))(op, a)
+                };
             }
         }
         _ => {
             #[cfg(hv_ifma)]
             {
-                return (vfe_impl!(ifma, square, 8))(op, a);
+                return if raw {
+                    (vfe_impl!(ifma, square, lanes4_limbs))(op, a)
+                } else {
+                    (vfe_impl!(ifma, square, lanes4))(op, a)
+                };
             }
         }
     }
@@ -287,7 +304,11 @@ pub fn vfe_op(isa: &str, op: &str, a: &[&str]) -> R {
     {
         // validate what can be validated without the backend, then skip
         for x in a.iter().take(4) {
-            hx::<32>(x)?;
+            if raw {
+                limbs::<u64, 5>(x)?;
+            } else {
+                hx::<32>(x)?;
+            }
         }
         Err(Fail::Skip)
     }
